@@ -56,6 +56,8 @@ PREPROC_BODIES = [
     "# define FT_TMP 1\n# undef FT_TMP\n\n" + _P,
     "# undef FT_A\n# undef FT_B\n\n" + _P,
     _P + "# ifndef FT_LATE\n#  define FT_LATE 1\n# endif\n\n",
+    "# pragma once\n\n" + _P,
+    "# pragma pack(1)\n# error \"unsupported\"\n\n" + _P,
 ]
 
 
